@@ -62,6 +62,8 @@ type Contract struct {
 	LoopsHavocOnly bool
 	NativeStr    bool
 	Props        []string // property ids this contract serves
+	Decreases    *Clause  // variant for recursive calls of the function itself (mathematical integer, >= 0)
+	RecGroup     string   // mutual recursion: calls between functions of one group must decrease the callee's variant below the caller's
 	Asserts      []*Clause
 	AtReturn     []*Clause // assertions checked at every return, local variables visible
 	Ticks        map[string]string // callee short name -> ghost global incremented at each call
@@ -138,7 +140,7 @@ type RecFunc struct {
 	Body   string // SMT body (raw)
 }
 
-var clauseKW = regexp.MustCompile(`^(requires|ensures|modifies|held|acquires|loop|option|props|assert|before|observe|count|atreturn|tick|owns)\b`)
+var clauseKW = regexp.MustCompile(`^(requires|ensures|decreases|recgroup|modifies|held|acquires|loop|option|props|assert|before|observe|count|atreturn|tick|owns)\b`)
 var labelRe = regexp.MustCompile(`^([A-Za-z][A-Za-z0-9_\-]*):\s+(.*)$`)
 
 func parseClause(src string, line int) (*Clause, error) {
@@ -323,6 +325,14 @@ func parseContractFile(path, pkgPath string) (*PkgSpec, error) {
 				return nil, fail(err)
 			}
 			cur.Ensures = append(cur.Ensures, c)
+		case strings.HasPrefix(t, "recgroup "):
+			cur.RecGroup = strings.TrimSpace(strings.TrimPrefix(t, "recgroup "))
+		case strings.HasPrefix(t, "decreases "):
+			c, err := parseClause(strings.TrimSpace(strings.TrimPrefix(t, "decreases ")), it.line)
+			if err != nil {
+				return nil, fail(err)
+			}
+			cur.Decreases = c
 		case strings.HasPrefix(t, "assert "):
 			c, err := parseClause(strings.TrimSpace(strings.TrimPrefix(t, "assert ")), it.line)
 			if err != nil {
